@@ -188,7 +188,7 @@ impl Property for C13 {
 
     fn runs(&self, tier: Tier) -> u64 {
         match tier {
-            Tier::Quick => 30000,
+            Tier::Quick => 100000,
             Tier::Thorough => 6000000,
         }
     }
